@@ -111,6 +111,55 @@ def rawpath(confdir, module):
         unsupported=unsupported,
     )
 
+def describe_finder(f, ids):
+    if f is None:
+        return ['none']
+    from spil import FindInConstants, FindInPaths, FindInList
+    fid = ids.setdefault(id(f), str(len(ids)))
+    if isinstance(f, FindInPaths):
+        return ['paths', fid, f.config_name]
+    if isinstance(f, FindInConstants):
+        return ['constants', fid, S(f.key), [S(v) for v in f.values], [] if f.parent_source is None else [describe_finder(f.parent_source, ids)]]
+    if isinstance(f, FindInList):
+        return ['list', fid, [S(x) for x in f.searchlist]]
+    return ['unsupported', type(f).__name__]
+
+def describe_getter(g):
+    if g is None:
+        return ['none']
+    from spil import GetFromPaths
+    if isinstance(g, GetFromPaths):
+        return ['paths', S(g.config)]
+    return [type(g).__name__]
+
+def routing(confdir):
+    """probe get_finder_for / get_getter_for with one (dummy) Sid of every type"""
+    sys.path.insert(0, confdir)
+    os.environ.setdefault('HOME', '/tmp')
+    with contextlib.redirect_stdout(io.StringIO()):
+        import spil
+        from spil import conf, Sid
+    ids = {}
+    finders = []
+    getters = []
+    types = list(conf.sid_templates.keys()) + ['']
+    for t in types:
+        x = Sid(from_factory=True)
+        x._init(string='x', type=t, fields={'k': 'v'})
+        f1 = conf.get_finder_for(x, None)
+        f2 = conf.get_finder_for(x, None)
+        d = describe_finder(f1, ids)
+        if f1 is not f2:
+            d = ['unsupported', 'new finder instance on every call']
+        finders.append([t, d])
+        getters.append([t, describe_getter(conf.get_getter_for(x)), describe_getter(conf.get_getter_for(x, attribute='next.version'))])
+    from pathlib import Path
+    battery = ['/r/a/b.ma', '/r/a/b', '/r/a/b.c.d', '/r/a/.b', '/r/a/b.', '/r/x_y_v001.abc']
+    sidecars = [[p, str(conf.get_data_json_path(Path(p)))] for p in battery]
+    return [['finders', finders], ['getters', getters], ['sidecars', sidecars],
+            ['create_file_using_touch', '1' if getattr(conf, 'create_file_using_touch', False) else '0'],
+            ['create_file_using_template', pairs(getattr(conf, 'create_file_using_template', {}))]]
+
 def dump_resolver(r):
     out = []
     for label in r.get_labels():
@@ -137,6 +186,8 @@ if __name__ == '__main__':
         r = raw(confdir)
     elif cmd == 'rawpath':
         r = rawpath(confdir, sys.argv[3])
+    elif cmd == 'routing':
+        r = routing(confdir)
     elif cmd == 'loaded':
         r = loaded(confdir, [x for x in sys.argv[3].split(',') if x])
     print(json.dumps(r))
